@@ -1,4 +1,5 @@
 pub mod grammar;
+pub mod intval;
 pub mod labels;
 pub mod reflex;
 pub mod vars;
